@@ -7,7 +7,7 @@ from ..runner import run_check
 LIBS = ["manual_event_loop.cpp", "static_thread_pool.cpp", "inplace_stop_token.cpp"]
 LOOP = ["loop_wait", "loop_wait2", "stc_wait", "loop_1x2", "loop_2x1", "loop_2x2", "loop_3x1", "loop_1x3", "loop_stop_race", "loop_stop_race2", "loop_tok", "stc", "stc2"]
 AQ = ["aq_2x1", "aq_1x2", "aq_dq", "aq_eoma", "aq_2x2"]
-POOL = ["pool_1_wait", "pool_2_wait", "pool_1", "pool_2a", "pool_2b", "pool_2c"]
+POOL = ["pool_1_wait", "pool_2_wait", "pool_1_wait2", "pool_1", "pool_2a", "pool_2b", "pool_2c"]
 NT = ["nt_1", "nt_2", "nt_3"]
 # configurations whose whole reachable set is (also) explored by the compiled driver
 MODEL_CONFIGS = [("eventloop", LOOP), ("atomicqueue", AQ), ("threadpool", POOL), ("newthread", NT)]
@@ -126,7 +126,7 @@ class TrampolinePart:
 
 
 def run(tier, seed, replay=None):
-    small = dict(quick=dict(preemptions=2, max_execs=2500), thorough=dict(preemptions=3, max_execs=40000))
+    small = dict(quick=dict(preemptions=2, max_execs=1500), thorough=dict(preemptions=3, max_execs=40000))
     parts = [
         AtomicPart("eventloop", "scn_c06.cpp", LIBS, "eventloop", LOOP),
         AtomicPart("atomicqueue", "scn_c06.cpp", LIBS, "atomicqueue", AQ),
@@ -140,7 +140,7 @@ def run(tier, seed, replay=None):
         ["UnifexModel.Props.C06", "UnifexModel.Props.C06_loop", "UnifexModel.Props.C06_loop2", "UnifexModel.Props.C06_queue",
          "UnifexModel.Props.C06_queue2", "UnifexModel.Props.C06_pool", "UnifexModel.Props.C06_loop3", "UnifexModel.Props.C06_newthread"],
         parts,
-        rule="every schedule (DFS preemption-bounded + random/PCT walks) of 27 scenarios on the REAL manual_event_loop, single_thread_context, "
+        rule="every schedule (DFS preemption-bounded + random/PCT walks) of 28 scenarios on the REAL manual_event_loop, single_thread_context, "
              "static_thread_pool, new_thread_context and atomic_intrusive_queue under the controlled scheduler (interposed mutex/condvar/threads); "
              "a case = one distinct observable history, non-trivial = admitted by the Lean model of the same name; plus generated nesting trees "
              "through the real trampoline_scheduler compared event-for-event with Proto/Trampoline (non-trivial = at least one deferred item)",
